@@ -82,9 +82,10 @@ def walk_rules(arg):
         (r'^size_t currTok = 0;$', 'size_t currTok = 0;', ''),
         (r'^switch \(t\[currTok\]\.type\) \{$', 'switch (T_VALUE(currTok).type) {', ''),
         (r'^dataStack\.back\(\)->type = Data::VERBATIM;$', 'DATA_BACK();', 'payload: type'),
-        (r'^std::string value = trimmed\.substr\((.*)\);$', 'vstr value = vstr_substr(&trimmed, <0>);', ''),
-        (r'^value = jsonUnescape\(value\);$', 'value = json_unescape(value);', ''),
-        (r'^dataStack\.back\(\)->atom = value;$', 'DATA_BACK();', 'payload: atom'),
+        # token text: a ghost flag per string variable records whether it went through jsonUnescape before it is used as a key / an atom
+        (r'^std::string (\w+) = trimmed\.substr\((.*)\);$', 'vstr <0> = vstr_substr(&trimmed, <1>); int unesc_<0> = 0;', ''),
+        (r'^(\w+) = jsonUnescape\(\1\);$', '<0> = json_unescape(<0>); unesc_<0> = 1;', ''),
+        (r'^dataStack\.back\(\)->atom = (\w+);$', 'ATOM_USE(unesc_<0>); DATA_BACK();', 'payload: atom'),
         (r'^dataStack\.pop_back\(\);$', 'DATA_POP();', ''),
         (r'^currTok\+\+;$', 'currTok++;', ''),
         (r'^tokenStack\.push_back\(t\[currTok\]\);$', 'TOK_PUSH(T_AT(currTok));', ''),
@@ -92,8 +93,8 @@ def walk_rules(arg):
         (r'^while \((.*)\) \{$', 'while (<0>) {', 'cond'),
         (r'^if \((.*)\) \{$', 'if (<0>) {', 'cond'),
         (r'^tokenStack\.pop_back\(\);$', 'TOK_POP();', ''),
-        (r'^std::string value = jsonUnescape\(trimmed\.substr\((.*)\)\);$', 'vstr value = json_unescape(vstr_substr(&trimmed, <0>));', ''),
-        (r'^dataStack\.push_back\(&\(dataStack\.back\(\)->compound\[value\]\)\);$', 'DATA_BACK(); DATA_PUSH();', 'payload: compound[value]'),
+        (r'^std::string (\w+) = jsonUnescape\(trimmed\.substr\((.*)\)\);$', 'vstr <0> = json_unescape(vstr_substr(&trimmed, <1>)); int unesc_<0> = 1;', ''),
+        (r'^dataStack\.push_back\(&\(dataStack\.back\(\)->compound\[(\w+)\]\)\);$', 'KEY_USE(unesc_<0>); DATA_BACK(); DATA_PUSH();', 'payload: compound[key]'),
         (r'^dataStack\.back\(\)->array\.push_back\(Data\(\)\);$', 'DATA_BACK();', 'payload: array element'),
         (r'^dataStack\.push_back\(&\(dataStack\.back\(\)->array\.back\(\)\)\);$', 'DATA_BACK(); DATA_PUSH();', 'payload: array.back()'),
         (r'^\} while \(true\);$', '} while (1);', ''),
